@@ -72,14 +72,18 @@ func (a *Agent) TeamserverTaskPrepare(Command string, Console func(AgentID strin
 			switch Commands[1] {
 
 			case "list":
-				if len(a.JobQueue) > 0 {
+				a.QueueMtx.Lock()
+				var Queue = append([]Job(nil), a.JobQueue...)
+				a.QueueMtx.Unlock()
+
+				if len(Queue) > 0 {
 					var ListTable string
 
 					ListTable += "\n"
 					ListTable += fmt.Sprintf(" %-8s  %-19s  %-8s  %s\n", "Task ID", "Created", "Size", "Command")
 					ListTable += fmt.Sprintf(" %-8s  %-19s  %-8s  %s\n", "-------", "-------", "----", "-------")
 
-					for _, task := range a.JobQueue {
+					for _, task := range Queue {
 						var (
 							Payload = BuildPayloadMessage([]Job{task}, a.Encryption.AESKey, a.Encryption.AESIv)
 							Size    = common.ByteCountSI(int64(len(Payload)))
@@ -101,9 +105,12 @@ func (a *Agent) TeamserverTaskPrepare(Command string, Console func(AgentID strin
 				break
 
 			case "clear":
-				if len(a.JobQueue) > 0 {
-					var Jobs = len(a.JobQueue)
-					a.JobQueue = nil
+				a.QueueMtx.Lock()
+				var Jobs = len(a.JobQueue)
+				a.JobQueue = nil
+				a.QueueMtx.Unlock()
+
+				if Jobs > 0 {
 					Console(a.NameID, map[string]string{
 						"Type":    "Good",
 						"Message": fmt.Sprintf("Cleared task queue [%v]", Jobs),
